@@ -728,12 +728,16 @@ fn gen_b(rng: &mut Rng) -> String {
         gids[i] = *rng.pick(&[0u32, 65535, 65534, 255, 256]);
     }
     // a long non-consecutive run: glyphIdArray beyond what a 16 bit length can hold
+    let mut giant = false;
     if rng.chance(1, 2500) {
         let n = 32000 + rng.below(1500) as u32;
         codes = (0x100..0x100 + n).collect();
         gids = (0..n).map(|i| 1 + (i * 7) % 5000).collect();
+        giant = true;
     }
-    let plane = if rng.chance(1, 10) {
+    let plane = if giant {
+        2 // the format 4 length limits are the point of this case
+    } else if rng.chance(1, 10) {
         1 + rng.below(4) as u32
     } else {
         match kind {
